@@ -86,7 +86,7 @@ def firstUnchained (ax : Axis) (n : Nat) (masks : Array Nat) : Option (Nat × Na
     every meeting pair chained.  Sound by `Props.C09.sepCert_sound`. -/
 def sepCert (ax : Axis) (n : Nat) (cs : List Con) (pos : Nat → Nat) (masks : Array Nat) : Bool :=
   acyclicBy pos cs && gapsCover ax cs && (List.range n).all (fun i => decide (0 ≤ ax.sz i))
-    && cs.all (fun c => c.l < n && c.r < n)
+    && cs.all (fun c => c.l < n && c.r < n) && cs.all (fun c => pos c.r < n)
     && masks.size == n && reachOK masks cs && pairsChained ax n masks
 
 /-! ### untrusted certificate producers (no theorem needed: their output is checked) -/
